@@ -100,7 +100,7 @@ func NewSession(repo, verifDir string, patterns []string, overlay map[string][]b
 		}
 		cf := filepath.Join(dir, "zz_contracts_verif.go")
 		if data, ok := overlay[cf]; ok {
-			tmp := filepath.Join(verifDir, "out", "overlay_contract_"+mangle(p.PkgPath)+".go")
+			tmp := filepath.Join(verifDir, "out", "overlay_contract_"+os.Getenv("GOVC_RUN")+mangle(p.PkgPath)+".go")
 			os.MkdirAll(filepath.Dir(tmp), 0o755)
 			os.WriteFile(tmp, data, 0o644)
 			if err := s.specs.LoadContractFile(tmp, p.PkgPath); err != nil {
